@@ -262,3 +262,98 @@ def is_cyclic(v, stack=None):
                 return True
         stack.pop()
     return False
+
+
+# ---------------------------------------------------------------- descriptors / list views
+
+def _decl_chain(rng, doc, want=None):
+    """a declaration chain [[name, path|None(, 'iter', k)]...] aimed at an existing node
+    (want: None | 'list'), and the absolute key/index location it denotes (or None)"""
+    locs = [l for l in locations(doc) if l]
+    if want == "list":
+        cands = [l for l in locs if isinstance(node_at(doc, l), list)]
+        if cands and rng.random() < 0.9:
+            locs = cands
+    if not locs:
+        return [[rng.choice(gen.KEYS), None]], None
+    loc = rng.choice(locs)
+    r = rng.random()
+    if len(loc) >= 2 and r < 0.35:
+        cut = rng.randint(1, len(loc) - 1)
+        outer, inner = loc[:cut], loc[cut:]
+        if isinstance(node_at(doc, outer), (dict, list)):
+            o = ["o", loc_to_steps(rng, doc, outer, fancy=0.1)]
+            inner_steps = [["k", nm] if isinstance(nm, str) else ["i", nm] for nm in inner]
+            if len(inner) == 1 and isinstance(inner[0], str) and rng.random() < 0.5:
+                return [o, [inner[0], None]], loc
+            return [o, ["x", inner_steps]], loc
+    if len(loc) == 1 and isinstance(loc[0], str) and r < 0.7:
+        return [[loc[0], None]], loc
+    return [["x", loc_to_steps(rng, doc, loc, fancy=0.15)]], loc
+
+
+def gen_descr_op(rng, doc):
+    r = rng.random()
+    if r < 0.08:
+        steps, _ = target_path(rng, doc, fancy=0.1)
+        return [rng.choice(["pp.get", "mp.get"]), steps]
+    if r < 0.14:
+        return ["pp.set", cascade_path(rng, doc), ["new", enc(rng.choice(VALS))]]
+    chain, loc = _decl_chain(rng, doc)
+    if rng.random() < 0.12:
+        chain[-1] = [rng.choice(gen.KEYS), None]          # a missing attribute
+    if r < 0.5:
+        return ["d.get", chain, rng.choice(["get", "get", "find", "get_match"]), rng.choice(["id", "id", "neg", "box"])]
+    if r < 0.85:
+        kind = "iter" if rng.random() < 0.12 else "plain"
+        conv = rng.choice(["id", "id", "neg", "box"])
+        vs = gen_valspec(rng, doc)
+        if vs[0] == "at" and (loc is None or tuple(vs[1]) == tuple(loc[:len(vs[1])])):
+            vs = ["new", enc(rng.choice(VALS))]     # would store a container inside itself
+        return ["d.set", chain, kind, rng.choice(["set_", "set_match"]), conv, vs]
+    return ["d.del", chain]
+
+
+def gen_list_op(rng, doc, live, its):
+    r = rng.random()
+    if not live or r < 0.15:
+        lid = rng.randint(0, 2)
+        chain, _ = _decl_chain(rng, doc, want="list")
+        live.add(lid)
+        return ["l.new", lid, chain, rng.choice(["id", "id", "neg", "box"])]
+    lid = rng.choice(sorted(live)) if rng.random() < 0.95 else rng.randint(0, 2)
+    idx = rng.choice([-5, -3, -2, -1, 0, 0, 1, 1, 2, 3, 5])
+    k = rng.choice(["l.len", "l.get", "l.get", "l.set", "l.set", "l.del", "l.in", "l.append", "l.append", "l.pop",
+                    "l.pop", "l.iter", "l.keep", "l.keep", "l.remove", "l.it.new", "l.it.next", "l.it.next"])
+    if k in ("l.len", "l.iter"):
+        return [k, lid]
+    if k in ("l.get", "l.del", "l.pop"):
+        return [k, lid, idx]
+    if k == "l.set":
+        return [k, lid, idx, ["new", enc(rng.choice(VALS))]]
+    if k in ("l.in", "l.append"):
+        return [k, lid, ["new", enc(rng.choice(VALS))]]
+    if k in ("l.keep", "l.remove"):
+        return [k, lid, rng.choice(["truthy", "none", "all", "is_num", "small"])]
+    if k == "l.it.next" and not its:
+        k = "l.it.new"
+    if k == "l.it.new":
+        itid = rng.randint(0, 1)
+        its.add(itid)
+        return [k, itid, lid]
+    return [k, rng.choice(sorted(its)) if its else 0]
+
+
+def gen_views(rng, profile):
+    doc = gen.gen_doc(rng)
+    if not isinstance(doc, dict) and rng.random() < 0.85:
+        doc = {"a": doc, "b": [1, {"c": 2}, 0, "s"], "l": []}
+    if profile == "listview" and isinstance(doc, dict) and rng.random() < 0.6:
+        doc[rng.choice(gen.KEYS)] = rng.choice([[], [1, 2, 3], [0, "", None, 2.5, {"a": 1}], [3, 1, 2, 0, 5]])
+    sc = {"fam": "m", "doc": enc(doc), "ops": []}
+    live, its = set(), set()
+    shadow = copy.deepcopy(doc)
+    for _ in range(rng.randint(2, 12)):
+        op = gen_descr_op(rng, shadow) if profile == "descr" else gen_list_op(rng, shadow, live, its)
+        sc["ops"].append(op)
+    return sc
